@@ -241,7 +241,7 @@ func RunHarnesses(l *Loaded, fns []*ssa.Function, cfg RunConfig) (map[string]*Ha
 				if os.Getenv("GOSYM_PROGRESS") != "" {
 					p.mu.Lock()
 					p.finished++
-					if p.finished%50 == 0 {
+					if p.finished%50 == 0 || os.Getenv("GOSYM_PROGRESS") == "2" {
 						fmt.Fprintf(os.Stderr, "progress: %d paths done, %d pending, steps=%d decisions=%d queries=%d\n", p.finished, len(p.jobs), in.steps, len(in.decisions), sv.Stats.Queries)
 					}
 					p.mu.Unlock()
